@@ -59,6 +59,13 @@ CLAIMED.update({
             "memory order is row-by-row / column-by-column by definition of the position function. Validated after random order/shape-changing prefixes, from both ends, sequential and parallel.",
             TB, "DESIGN §7 C15"),
 })
+CLAIMED.update({
+    'C11': ("Rocq proof of multiply / multiplication_like_operation on the list model + differential correspondence on symbolic elements",
+            "For arbitrary (non-commutative, non-associative) mul/add the executable model of the product (checks, zero-inner path, set_order of both operands, get_nth_major_axis_vector slices, double loop "
+            "in result order, dot_product with unwrap_unchecked) is proved to return the nrows(lhs) x ncols(rhs) matrix in lhs's order whose (i,j) element is ((l0*r0 + l1*r1) + ...) over row i and column j; "
+            "the closure of multiplication_like_operation receives exactly row i and column j; None is never unwrapped; error decisions in the documented order.",
+            TB + " Stated for element types that occupy memory (esL, esR > 0). Operands passed by reference are unchanged because the operator forms clone them (observed by the harness).", "DESIGN §7 C11"),
+})
 NOT_APPLICABLE = {}
-for _p in ['C01', 'C02', 'C03', 'C11', 'C16', 'C17', 'C18', 'C19', 'C20']:
+for _p in ['C01', 'C02', 'C03', 'C16', 'C17', 'C18', 'C19', 'C20']:
     NOT_APPLICABLE[_p] = "not claimed yet: the check for this property is still being built in this round (the technique applies; see DESIGN.md §7)"
